@@ -19,3 +19,37 @@ Theorem C01_ravel_in_bounds : forall idx lens,
   Forall2 (fun i l => i < l) idx lens -> lens <> [] -> ravel idx lens < nprod lens.
 Proof. exact ravel_lt. Qed.
 Print Assumptions C01_ravel_in_bounds.
+
+(* The lowering of a rearrangement.  Model/Lower.v: reshape the tensor to its leaf axes, transpose them into the order in
+   which the output lists them, reshape to the output dimensions - as a term of Model/Opt.v, whose meaning is numpy's
+   row-major reshape / transpose.  For every pair of expressions that only nest flattened axes (any depth, any number of
+   axes, any lengths; distinct names; the output uses the input's axes), every loop environment within the axis bounds and
+   every element of the input: the element that the input holds at the position the environment denotes there is found in
+   the result at the position the environment denotes in the output expression.  The correspondence check asks the
+   extracted, proved-sound equivalence checker of Model/Opt.v whether the graph einx traces for such calls is this term. *)
+From EinxV Require Import Model.Opt Model.Lower Proofs.LowerProofs.
+Theorem C01_rearrangement_lowering_is_the_meaning :
+  forall (V : Type) (inp : nat -> entries V) F BC CC (din dout : list pex),
+  rearrange_ok din dout = true ->
+  forall (k : nat) (rho : env) (v : V),
+  in_bounds rho din -> in_bounds rho dout ->
+  In (map (pidx rho) din, v) (inp k) ->
+  In (map (pidx rho) dout, v) (meval V inp F BC CC (lower_rearrange k din dout)).
+Proof. intros V inp F BC CC din dout Hok k rho v. exact (lower_rearrange_correct V inp F BC CC din dout Hok k rho v). Qed.
+Print Assumptions C01_rearrangement_lowering_is_the_meaning.
+
+(* the same in flat row-major positions, the way the reference plan [plan_id] speaks *)
+Theorem C01_rearrangement_lowering_flat_positions :
+  forall (din dout : list pex), rearrange_ok din dout = true ->
+  forall rho, in_bounds rho din -> in_bounds rho dout ->
+  ravel (moved din dout (map (pidx rho) din)) (map psize dout) = pos rho dout.
+Proof. intros din dout Hok rho Bi Bo. exact (proj1 (lower_rearrange_flat din dout Hok rho Bi Bo)). Qed.
+Print Assumptions C01_rearrangement_lowering_flat_positions.
+
+(* non-vacuity: "a (b c) -> (c a) b" with lengths 2, 3, 4 is in scope, and the model is the term einx emits *)
+Example C01_lowering_example :
+  let din := [PAx 1 2 false; PFl [PAx 2 3 false; PAx 3 4 false]] in
+  let dout := [PFl [PAx 3 4 false; PAx 1 2 false]; PAx 2 3 false] in
+  rearrange_ok din dout = true /\
+  lower_rearrange 0 din dout = MReshape (MTranspose (MReshape (MIn 0 [2; 12]) [2; 3; 4]) [2; 0; 1]%nat) [8; 3].
+Proof. vm_compute. split; reflexivity. Qed.
